@@ -29,7 +29,7 @@ RULES = {
 def rand_cfg(rng, kinds=("DE", "DE2", "NM", "PW")):
     kind = rng.choice(kinds)
     dim = rng.choice([1, 2, 3])
-    box = rng.choice(["none", "wide", "unit", "unit", "degenerate", "onesided", "infinite", "halfinf", "mixedinf", "shifted", "negshift"])
+    box = rng.choice(["none", "wide", "unit", "unit", "degenerate", "onesided", "infinite", "halfinf", "mixedinf", "shifted", "negshift", "fracround"])
     tight, clip = rng.choice([(None, None)] * 4 + [(True, None), (False, None), (True, True), (None, True), (True, False)])
     cons = rng.choice(["none", "pin", "clamp", "round", "tie", "symbolic"])
     if box == "degenerate" and cons in ("round", "pin", "clamp"):
@@ -242,7 +242,8 @@ def run(prop, a):
         if i < ngrid:
             k, tc, cn = grid[i % len(grid)]
             cfg.update(kind=k, tight=tc[0], clip=tc[1], cons=cn, cons_at=0, box_at=0, pen_at=0, box_off_at=None, via="set",
-                       box=("unit", "wide")[(i // len(grid) + i) % 2], dim=max(2, cfg["dim"]), far=False,
+                       box=(("unit", "wide", "fracround")[(i // len(grid) + i) % 3] if cn != "round" else
+                            "fracround"), dim=max(2, cfg["dim"]), far=False,
                        box2_at=None if cn == "round" else cfg.get("box2_at"))
             if cfg["cost"] == "infwall":
                 cfg["cost"] = "sphere"
